@@ -211,6 +211,11 @@ class DirectMethod:
         if phase==1:
             if isinstance(stage._T, FreeTime):
                 init = stage._T.T_init
+                try:
+                    # A guess given for ocp.T before transcription takes the place of the declared one
+                    init = stage._initial[stage.T]
+                except KeyError:
+                    pass
                 stage.set_T(stage.variable())
                 stage.subject_to(stage._T>=0)
                 stage.set_initial(stage._T, init,priority=True)
@@ -223,6 +228,11 @@ class DirectMethod:
         if phase==1:
             if isinstance(stage._t0, FreeTime):
                 init = stage._t0.T_init
+                try:
+                    # A guess given for ocp.t0 before transcription takes the place of the declared one
+                    init = stage._initial[stage.t0]
+                except KeyError:
+                    pass
                 stage.set_t0(stage.variable())
                 stage.set_initial(stage._t0, init,priority=True)
                 return stage._t0
